@@ -350,3 +350,10 @@ def run(case):
                     out.fail(f"{name}:output_file_unreadable", repr(e))
     out.check(np.array_equal(x, keep), "input_modified", "after all calls")
     return out
+
+
+# rejected calls that run before every case (vlib/faults.py): nothing they leave behind - module state, library options,
+# stray files - may make the valid calls of the case violate the statement
+from vlib import faults as _faults  # noqa: E402
+
+fault_calls = _faults.for_property(ID)
